@@ -17,7 +17,9 @@ for d in sorted(glob.glob(os.path.join(ROOT, "seeded", "*"))):
     prop = m["breaks_property"]
     r = res.get(prop, {})
     lines = [l for l in r.get("lines", []) if l.startswith("VIOLATION")]
-    if r.get("exit") == 1 and lines:
+    if m.get("neutralised_by"):
+        verdict = "no longer breaks the property since fix %s (%s): demonstration passes with the change; check quiet, as it should be" % (m["neutralised_by"]["commit"], m["neutralised_by"]["finding"])
+    elif r.get("exit") == 1 and lines:
         verdict = "caught (no failing input found)" if "no-failing-input-found" in lines[0] else "caught, with a failing input as replay"
     elif r:
         verdict = "MISSED"
@@ -34,4 +36,4 @@ if begin in s:
     s = s[:s.index(begin) + len(begin)] + "\n" + table + s[s.index(end):]
     open(p, "w").write(s)
 print(table[:400])
-print(sum("caught" in r for r in rows), "caught of", len(rows))
+print(sum("caught" in r for r in rows), "caught,", sum("no longer breaks" in r for r in rows), "neutralised by a fix, of", len(rows))
